@@ -1,5 +1,5 @@
 import SdcModel.Basic.Io
-import SdcModel.MdibDescr
+import SdcModel.Reports
 /-! line-protocol driver for the provider MDIB model (used by drv_c02, drv_c03, drv_c04) -/
 namespace Sdc.MdibDriver
 open Sdc Sdc.Mdib
@@ -49,6 +49,20 @@ def showRes (r : TxResult) : String :=
   ++ "|metric " ++ ";".intercalate (r.metric.map showS) ++ "|alert " ++ ";".intercalate (r.alert.map showS)
   ++ "|comp " ++ ";".intercalate (r.comp.map showS) ++ "|ctx " ++ ";".intercalate (r.ctx.map showC)
   ++ "|op " ++ ";".intercalate (r.op.map showS) ++ "|rt " ++ ";".intercalate (r.rt.map showS)
+
+def modStr : ModType → String | .create => "Crt" | .update => "Upt" | .delete => "Del"
+def rkStr : ReportKind → String
+  | .metric => "metric" | .alert => "alert" | .component => "component" | .context => "context"
+  | .operational => "operational" | .waveform => "waveform" | .description => "description"
+def showVg (vg : VersionGroup) : String := s!"{vg.ver},{vg.seq},{showOpt vg.inst}"
+def showRep : Rep → String
+  | .descr vg parts => s!"DESCR {showVg vg} :: " ++ " && ".intercalate (parts.map fun p =>
+      s!"{modStr p.mod},{showOpt p.parent},{showOpt p.mds},{showD p.descr}[" ++ ";".intercalate (p.states.map showS) ++ "]["
+        ++ ";".intercalate (p.cstates.map showC) ++ "]")
+  | .states k vg parts => s!"STATES {rkStr k} {showVg vg} :: " ++ " && ".intercalate (parts.map fun p =>
+      s!"{p.1}=[" ++ ";".intercalate (p.2.map showS) ++ "]")
+  | .ctx vg parts => s!"CTX {showVg vg} :: " ++ " && ".intercalate (parts.map fun p =>
+      s!"{p.1}=[" ++ ";".intercalate (p.2.map showC) ++ "]")
 
 def outcomeStr : Outcome → String
   | .committed => "committed" | .empty => "empty" | .aborted => "aborted" | .rejected => "rejected"
@@ -117,6 +131,9 @@ def step (st : St) (line : String) : St × String :=
     | some c, some r => finish st c r
     | _, _ => (st, "bad-op")
   | ["dump"] => (st, dump st.t)
+  | ["reports", seq, inst] => match seq.toNat?, optNat inst with
+    | some q, some i => (st, " ## ".intercalate ((mkReports st.t ⟨st.t.ver, q, i⟩ st.last).map showRep))
+    | _, _ => (st, "bad-op")
   | ws =>
     match st.cur with
     | .none => (st, "bad-op")
